@@ -211,7 +211,12 @@ def run(ctx):
             return out if _st.calcsize(fmt) == o else None
         m = {}
         for t, v, pc, _, _ in F.stores:
-            if not (t[0] == 'index' and strip_ids(t[1]) == strip_ids(('attr', res_t, 'addr'))):
+            base = strip_ids(t[1]) if t[0] == 'index' else None
+            if base is not None and base[0] == 'acc':
+                # a local alias of result.addr that a loop writes through: what it held when the loop was entered
+                inits = [strip_ids(i_[base[1]]) for i_ in F.loop_inits.values() if base[1] in i_]
+                base = inits[0] if len(inits) == 1 else base
+            if not (t[0] == 'index' and base == strip_ids(('attr', res_t, 'addr'))):
                 continue
             holds = True
             for a_ in strip_ids(pc):
@@ -578,6 +583,8 @@ def check_framing(ctx, sizes):
                         return err
                     if t[0] == 'global' and t[1].endswith('NLMSG_ERROR'):
                         return 2
+                    if t[0] == 'global' and t[1].endswith('NLMSG_DONE'):
+                        return 3
                     raise tq.NoValue()
                 try:
                     v = all(bool(tq.teval(a[0], leaf)) == a[1] for a in atoms)
@@ -665,9 +672,18 @@ def check_events(ctx, H):
     pm = ctx.func('netlink.NetlinkProtocol.parse_message')
     M = ctx.sval(pm)
     d = pm.call_params()[0]
-    r = M.ret()
     hdr = M.expr('NetlinkHeader.parse(%s)' % d)
-    ok = r[0] == 'tuple' and len(r[1]) == 3 and same(r[1][0], hdr)
+    # every return is (header, payload, attributes); the one that carries a payload is examined (an early return for NLMSG_DONE / an
+    # unknown type hands back the header alone)
+    rall = [strip_ids(t) for _, t, _ in M.returns]
+
+    def tuples(t):
+        return tuples(t[2]) + tuples(t[3]) if t[0] == 'cond' else [t]
+    rall = [x for t in rall for x in tuples(t)]
+    ok = bool(rall) and all(t[0] == 'tuple' and len(t[1]) == 3 and same(t[1][0], hdr) for t in rall)
+    full = [t for t in rall if ok and t[1][1] != NONE]
+    r = full[0] if full else (rall[0] if rall else NONE)
+    ok = ok and bool(full)
     pay = att = None
     if ok:
         pays = [c for c in M.calls if c.name == 'parse' and tq.match(M.expr('cls.payload_types[_]'), c.recv or NONE) is not None]
@@ -675,13 +691,16 @@ def check_events(ctx, H):
         ok = len(pays) == 1 and len(atts) == 1
         if ok:
             pay, att = pays[0], atts[0]
-            hs = M.expr('sizeof(NetlinkHeader.parse(%s))' % d)
+            # the size of the fixed header: of the parsed header object or of its class
+            hss = [strip_ids(M.expr('sizeof(NetlinkHeader.parse(%s))' % d)), strip_ids(M.expr('sizeof(NetlinkHeader)'))]
+            p0 = strip_ids(list(pay.args.values())[0])
             ok = same(pay.recv, ('index', M.expr('cls.payload_types'), ('attr', hdr, 'type'))) \
-                and same(list(pay.args.values())[0], ('slice', ('param', d), hs, NONE, NONE))
+                and p0[0] == 'slice' and p0[1] == ('param', d) and p0[2] in hss and p0[3] == NONE and p0[4] == NONE
             a = strip_ids(list(att.args.values())[0])
+            szp = strip_ids(('call', 'ctypes.sizeof', NONE, (('#0', pay.term),)))
             ok = ok and a[0] == 'slice' and a[1] == ('param', d) and a[3] == strip_ids(('attr', hdr, 'length')) and a[4] == NONE \
-                and a[2][0] == 'add' and set(a[2][1]) == {strip_ids(hs), strip_ids(('call', 'ctypes.sizeof', NONE, (('#0', pay.term),)))}
-            ok = ok and tq.contains(r[1][1], pay.term) and tq.contains(r[1][2], att.term)
+                and a[2][0] == 'add' and len(a[2][1]) == 2 and szp in a[2][1] and any(h_ in a[2][1] for h_ in hss)
+            ok = ok and tq.contains(r[1][1], strip_ids(pay.term)) and tq.contains(r[1][2], strip_ids(att.term))
     ctx.check(ok, 'L5', 'an event is header, then the payload structure of its type, then attributes up to nlmsg_len', key=('L5', 'parse-message'),
               site=ctx.site(pm, pm.node), detail={'returned': tq.text(r, 700)})
     pa = ctx.func('netlink.NetlinkProtocol._parse_attributes')
